@@ -41,7 +41,125 @@ def _split_opts(args, valued):
     return opts, pos
 
 
-def classify(argv):
+GIT_ADD_FLAGS = {"--update", "-u", "--all", "-A", "--no-all", "--force", "-f", "--verbose", "-v", "--dry-run", "-n",
+                 "--ignore-errors", "--intent-to-add", "-N", "--renormalize", "--refresh", "--ignore-missing", "--sparse",
+                 "--pathspec-file-nul", "--ignore-removal", "--no-ignore-removal"}
+GIT_ADD_VALUED = {"--pathspec-from-file", "--chmod"}
+HG_ADD_FLAGS = {"-S", "--subrepos", "-n", "--dry-run", "-v", "--verbose", "-q", "--quiet"}
+HG_ADD_VALUED = {"-I", "--include", "-X", "--exclude"}
+
+
+def c_unquote(line):
+    """git's unquote_c_style for a line that begins with a double quote: -> text or None when badly quoted.
+    Whatever follows the closing quote is ignored (as git does when no end pointer is asked for)."""
+    out = bytearray()
+    data = line.encode("utf-8", "surrogateescape")
+    i = 1
+    n = len(data)
+    simple = {ord("a"): 7, ord("b"): 8, ord("f"): 12, ord("n"): 10, ord("r"): 13, ord("t"): 9, ord("v"): 11,
+              ord("\\"): ord("\\"), ord('"'): ord('"')}
+    while i < n:
+        ch = data[i]
+        if ch == ord('"'):
+            return out.decode("utf-8", "surrogateescape")
+        if ch != ord("\\"):
+            out.append(ch)
+            i += 1
+            continue
+        i += 1
+        if i >= n:
+            return None
+        ch = data[i]
+        if ch in simple:
+            out.append(simple[ch])
+            i += 1
+        elif ord("0") <= ch <= ord("3"):
+            if i + 2 >= n or not all(ord("0") <= c <= ord("7") for c in data[i + 1:i + 3]):
+                return None
+            out.append(int(data[i:i + 3].decode("ascii"), 8))
+            i += 3
+        else:
+            return None
+    return None
+
+
+def parse_add(tool, rest, stdin):
+    """Option parsing of `git add` / `hg add` as the real tools do it: everything that starts with a dash in front of a
+    `--` is an option, whatever the caller meant it to be.
+    -> info dict: paths, opts, bad_option (first unknown option), sweep (no pathspec limits an updating add),
+       bad_stdin (pathspec file badly quoted)"""
+    flags, valued = (GIT_ADD_FLAGS, GIT_ADD_VALUED) if tool == "git" else (HG_ADD_FLAGS, HG_ADD_VALUED)
+    opts = {}
+    pos = []
+    bad = None
+    i = 0
+    while i < len(rest):
+        a = rest[i]
+        if a == "--":
+            pos.extend(rest[i + 1:])
+            break
+        if a.startswith("--") and "=" in a and a.split("=", 1)[0] in valued:
+            k, v = a.split("=", 1)
+            opts[k] = v
+        elif a in valued:
+            if i + 1 < len(rest):
+                opts[a] = rest[i + 1]
+                i += 1
+            else:
+                bad = bad or a
+        elif a in flags:
+            opts[a] = True
+        elif a.startswith("-") and len(a) > 1:
+            # real option parsers also accept bundled short flags; anything else is an error
+            if not a.startswith("--") and all(("-" + ch) in flags for ch in a[1:]):
+                for ch in a[1:]:
+                    opts["-" + ch] = True
+            else:
+                bad = bad or a
+        else:
+            pos.append(a)
+        i += 1
+    info = {"opts": sorted(opts), "bad_option": bad}
+    src = opts.get("--pathspec-from-file")
+    if tool == "git" and src is not None:
+        if pos:
+            info["bad_option"] = info["bad_option"] or "--pathspec-from-file with pathspec arguments"
+        text = (stdin or b"").decode("utf-8", "surrogateescape") if src == "-" else None
+        if text is None:
+            try:
+                with open(src, "rb") as fobj:
+                    text = fobj.read().decode("utf-8", "surrogateescape")
+            except OSError:
+                text = ""
+                info["bad_option"] = info["bad_option"] or "cannot open pathspec file"
+        if "--pathspec-file-nul" in opts:
+            pos = [x for x in text.split("\0") if x]
+        else:
+            pos = []
+            for line in text.split("\n"):
+                if line.endswith("\r"):
+                    line = line[:-1]
+                if not line:
+                    continue
+                if line.startswith('"'):
+                    un = c_unquote(line)
+                    if un is None:
+                        info["bad_stdin"] = line
+                        continue
+                    line = un
+                pos.append(line)
+    elif "--pathspec-file-nul" in opts and tool == "git":
+        info["bad_option"] = info["bad_option"] or "--pathspec-file-nul without --pathspec-from-file"
+    info["paths"] = pos
+    if tool == "git":
+        info["sweep"] = not pos and any(k in opts for k in ("--update", "-u", "--all", "-A"))
+        info["nothing"] = not pos and not info["sweep"]
+    else:
+        info["sweep"] = not pos      # `hg add` without names schedules every untracked file
+    return info
+
+
+def classify(argv, stdin=None):
     """argv -> (tool, role, info).  Roles: probe_usable fetch ls_tags ls_tags_branch status add commit
     tag push probe_remote probe_branches unknown"""
     if not argv:
@@ -64,8 +182,7 @@ def classify(argv):
         if sub == "status":
             return (tool, "status", {})
         if sub == "add":
-            opts, pos = _split_opts(rest, set())
-            return (tool, "add", {"paths": pos, "opts": sorted(opts)})
+            return (tool, "add", parse_add(tool, rest, stdin))
         if sub == "commit":
             opts, pos = _split_opts(rest, {"--message", "-m", "--file", "-F", "--author", "--date"})
             return (tool, "commit", {"message": opts.get("--message", opts.get("-m")), "extra_pos": pos,
@@ -92,8 +209,7 @@ def classify(argv):
         if sub == "status":
             return (tool, "status", {})
         if sub == "add":
-            opts, pos = _split_opts(rest, set())
-            return (tool, "add", {"paths": pos, "opts": sorted(opts)})
+            return (tool, "add", parse_add(tool, rest, stdin))
         if sub == "commit":
             opts, pos = _split_opts(rest, {"--logfile", "-l", "--message", "-m", "--user", "--date"})
             msg = opts.get("--message", opts.get("-m"))
@@ -237,6 +353,23 @@ class FakeRepo:
         return self._hg(cwd, argv, role, info)
 
     def _do_add(self, cwd, info):
+        git = self.personality == "git"
+        if info.get("bad_option"):
+            return (129 if git else 255, b"", ("error: unknown option `%s'\nusage: add [<options>] [--] <pathspec>...\n" % info["bad_option"]).encode("utf-8", "replace"))
+        if info.get("bad_stdin"):
+            return (128, b"", ("fatal: line is badly quoted: %s\n" % info["bad_stdin"]).encode("utf-8", "replace"))
+        if info.get("sweep"):
+            # no pathspec: every change of a tracked file is staged (git add -u / -A, hg add)
+            for _letter, p in self.working_tree_changes(cwd):
+                if p not in self.staged:
+                    self.staged.append(p)
+            for _xy, p in self.status:
+                if p not in self.staged and os.path.exists(os.path.join(cwd, p)):
+                    self.staged.append(p)
+            info["swept"] = True
+            return (0, b"", b"")
+        if info.get("nothing") and git:
+            return (0, b"", b"Nothing specified, nothing added.\n")
         for p in info.get("paths", []):
             if not os.path.exists(os.path.join(cwd, p)):
                 return (128, b"", ("fatal: pathspec '%s' did not match any files\n" % p).encode("utf-8", "replace"))
@@ -449,12 +582,16 @@ class VcsShim:
             return "cpe"
         return None
 
-    def _run(self, argv, env):
+    def _run(self, argv, env, stdin=None):
         try:
             argv = [str(a) for a in argv]
-            tool, role, info = classify(argv)
+            if isinstance(stdin, str):
+                stdin = stdin.encode("utf-8", "surrogateescape")
+            tool, role, info = classify(argv, stdin)
             ev = {"kind": "vcs", "tool": tool, "role": role, "argv": argv, "info": info,
                   "dir": invoker.dir_digest(self.cwd), "k": self.crossings}
+            if stdin is not None:
+                ev["stdin"] = stdin.decode("utf-8", "surrogateescape")
             self.events.append(ev)
             hit = self._fault_hits(role)
             self.crossings += 1
@@ -487,7 +624,8 @@ class VcsShim:
                 full_env.update(self.forward_env)
             try:
                 proc = subprocess.run(argv, cwd=self.cwd, env=full_env, stdout=subprocess.PIPE,
-                                      stderr=subprocess.PIPE, timeout=60)
+                                      stderr=subprocess.PIPE, timeout=60,
+                                      **({"input": stdin} if stdin is not None else {"stdin": subprocess.DEVNULL}))
             except subprocess.TimeoutExpired:
                 self.harness_error = "timeout running %r" % (argv,)
                 raise invoker.HarnessError(self.harness_error)
@@ -496,7 +634,7 @@ class VcsShim:
         return (rc, out, err)
 
     def check_output(self, cmd, env=None, stderr=None, **kw):
-        rc, out, err = self._run(cmd, env)
+        rc, out, err = self._run(cmd, env, kw.get("input"))
         if rc != 0:
             raise subprocess.CalledProcessError(rc, cmd, output=out, stderr=err)
         return out
@@ -506,7 +644,7 @@ class VcsShim:
         return rc
 
     def run(self, cmd, **kw):  # tolerated alternative spelling
-        rc, out, err = self._run(cmd, kw.get("env"))
+        rc, out, err = self._run(cmd, kw.get("env"), kw.get("input"))
         if kw.get("check") and rc != 0:
             raise subprocess.CalledProcessError(rc, cmd, output=out, stderr=err)
         return subprocess.CompletedProcess(cmd, rc, out, err)
